@@ -105,6 +105,22 @@ Theorem c04_required_verification_needs_capability : forall o s resp, o_uv o = t
   c04_judge_mc o s (Some (Ok resp)) = true -> s_cap s = Some (Some true).
 Proof. exact judge_mc_required. Qed.
 
+(** *** the client's source: the only options literal of either ceremony is `Options { rk, up: true, uv }`, no PIN
+    is sent, and the literal follows the call it is an argument of *)
+From PK Require Auth.ClientSource Auth.gen.ClientSkeleton.
+Theorem c04_client_always_demands_presence_in_source :
+  OrderList.before "MakeCredential" "OptionsUpTrue" ClientSkeleton.SRC_CLIENT_REGISTER = true
+  /\ OrderList.first_pos "OptionsOther" ClientSkeleton.SRC_CLIENT_REGISTER = None
+  /\ OrderList.before "OptionsUpTrue" "PinAuthNone" ClientSkeleton.SRC_CLIENT_REGISTER = true
+  /\ OrderList.before "GetAssertion" "OptionsUpTrue" ClientSkeleton.SRC_CLIENT_AUTHENTICATE = true
+  /\ OrderList.first_pos "OptionsOther" ClientSkeleton.SRC_CLIENT_AUTHENTICATE = None
+  /\ OrderList.before "OptionsUpTrue" "PinAuthNone" ClientSkeleton.SRC_CLIENT_AUTHENTICATE = true.
+Proof. vm_compute. repeat split. Qed.
+Theorem c04_client_source_is_the_modelled_one :
+  ClientSkeleton.SRC_CLIENT_REGISTER = ClientSource.EXP_CLIENT_REGISTER
+  /\ ClientSkeleton.SRC_CLIENT_AUTHENTICATE = ClientSource.EXP_CLIENT_AUTHENTICATE.
+Proof. exact (conj ClientSource.src_client_register_order ClientSource.src_client_authenticate_order). Qed.
+
 Print Assumptions c04_make_credential.
 Print Assumptions c04_get_assertion.
 Print Assumptions c04_violation_bit_meaning.
@@ -117,3 +133,5 @@ Print Assumptions c04_register_client.
 Print Assumptions c04_authenticate_client.
 Print Assumptions c04_client_uv_mapping.
 Print Assumptions c04_required_verification_needs_capability.
+Print Assumptions c04_client_always_demands_presence_in_source.
+Print Assumptions c04_client_source_is_the_modelled_one.
